@@ -498,6 +498,53 @@ def rrel_provider_options_scenario():
         shutil.rmtree(tmp, ignore_errors=True)
 
 
+def search_path_scenario():
+    """concrete supplement: files in several directories under a search_path provider.  An import is looked
+    up beside the importing file, then in the configured search path - never in the directory of some other
+    model of the load; the configured list is not changed by a load"""
+    from textx import metamodel_from_str
+    import textx.scoping.providers as P
+    import shutil
+    problems = []
+    for pname in ('PlainNameImportURI', 'FQNImportURI'):
+        for gr in (False, True):
+            tmp = tempfile.mkdtemp(prefix='c17s_')
+            try:
+                files = {'proj/main.m': 'import "sub/b.m"\nitem m1\nuse b1', 'proj/sub/b.m': 'import "c.m"\nitem b1\nuse c1',
+                         'proj/c.m': 'item decoy', 'lib/c.m': 'item c1', 'proj/other.m': 'import "d.m"\nitem o1'}
+                for fn, t in files.items():
+                    os.makedirs(os.path.dirname(os.path.join(tmp, fn)), exist_ok=True)
+                    with open(os.path.join(tmp, fn), 'w') as f:
+                        f.write(t)
+                sp = [os.path.join(tmp, 'lib')]
+                mm = metamodel_from_str(GRAMMAR, global_repository=gr)
+                mm.register_scope_providers({'*.*': getattr(P, pname)(search_path=sp)})
+                label = '%s(search_path=[lib]), global repository %s' % (pname, gr)
+                try:
+                    m = mm.model_from_file(os.path.join(tmp, 'proj', 'main.m'))
+                    got = sorted(os.path.relpath(x._tx_filename, tmp) for x in m._tx_model_repository.all_models)
+                    exp = ['lib/c.m', 'proj/main.m', 'proj/sub/b.m']
+                    if got != exp:
+                        problems.append('%s: files of the load %s, expected %s' % (label, got, exp))
+                except Exception as e:  # noqa
+                    problems.append('%s: %s: %s' % (label, type(e).__name__, str(e).replace(tmp, '')[:100]))
+                if sp != [os.path.join(tmp, 'lib')]:
+                    problems.append('%s: the search_path list given to the provider was changed to %s'
+                                    % (label, [os.path.relpath(x, tmp) for x in sp]))
+                # d.m exists nowhere on the search path: a later load must not find files beside earlier models
+                with open(os.path.join(tmp, 'proj', 'sub', 'd.m'), 'w') as f:
+                    f.write('item stray')
+                try:
+                    mm.model_from_file(os.path.join(tmp, 'proj', 'other.m'))
+                    problems.append('%s: other.m imports d.m, which exists only beside a model of an earlier load: '
+                                    'the load succeeds' % label)
+                except Exception:  # noqa
+                    pass
+            finally:
+                shutil.rmtree(tmp, ignore_errors=True)
+    return problems
+
+
 def global_repo_provider_scenario(global_repo):
     """GlobalRepo provider (file pattern) with roots loaded from strings: with a
     metamodel-wide global repository every registered file is parsed once, all
@@ -618,6 +665,9 @@ def main():
             chk.violation('GlobalRepo provider, global repository %s: %s' % (gr, pr), {'global_repo_provider': gr})
     for pr in rrel_provider_options_scenario():
         chk.violation(pr, {'rrel_provider_options': True})
+    for pr in search_path_scenario()[:3]:
+        chk.violation(pr, {'search_path_scenario': True})
+    chk.cov['bounds']['search_path_scenario'] = 'files in three directories, search_path providers (concrete)'
     chk.cov['bounds']['rrel_provider_options'] = "create_rrel_scope_provider('+m:items', search_path=[...]) (concrete)"
     chk.cov['bounds']['global_repo_provider'] = 'PlainNameGlobalRepo(pattern), two string roots + a file load, global repository on/off: concrete'
     chk.cov['bounds']['plain_repeated_load'] = 'default provider (no model loader), global repository on/off: concrete'
@@ -633,6 +683,9 @@ def main():
 
 
 def replay(data):
+    if 'search_path_scenario' in data:
+        pr = search_path_scenario()
+        return bool(pr), pr[:3]
     if 'rrel_provider_options' in data:
         pr = rrel_provider_options_scenario()
         return bool(pr), pr
